@@ -431,6 +431,58 @@ u_invalid(uint64_t idx, void *arg)
     vh_sample("invalid", "source_get_chunk(N=0) and N=SSIZE_MAX+1 must return -EINVAL without a driver call");
 }
 
+/* ---- nothing asked for, nowhere to put it: at-most transfers of zero octets and auxiliary buffers without free
+ * space. Whatever the call answers (the statement only refuses N = 0 for the exact variants), it moves nothing: the
+ * source keeps its octets, the sink gets none, no memory is written. ---- */
+static void
+u_nothing(uint64_t idx, void *arg)
+{
+    (void)arg;
+    const int srcchunk = (int)(idx & 1), snkchunk = (int)(idx >> 1) & 1;
+    for (int what = 0; what < 6; what++)
+        for (size_t asz = 1; asz <= 4; asz++) {
+            struct drv sd, kd;
+            drv_init(&sd, 0, srcchunk, 0, 0, 20);
+            drv_init(&kd, 1, snkchunk, 0, 0, 1000);
+            sd.bound = kd.bound = 64;
+            Source s;
+            Sink k;
+            mk_src(&s, &sd);
+            mk_snk(&k, &kd);
+            vh_arena_reset();
+            unsigned char *mem = vh_arena(asz), img[8];
+            for (size_t i = 0; i < asz; i++)
+                mem[i] = img[i] = (unsigned char)(0xE0 + i);
+            ByteBuffer aux;
+            byte_buffer_set(&aux, mem, asz, asz, 0); /* full: used == size */
+            ssize_t rc;
+            const char *api;
+            VH_CASE4(idx, what, asz, 0);
+            switch (what) {
+            case 0: api = "source_get_chunk_atmost(0)"; rc = source_get_chunk_atmost(&s, mem, 0); break;
+            case 1: api = "sink_put_chunk_atmost(0)"; rc = sink_put_chunk_atmost(&k, mem, 0); break;
+            case 2: api = "sts_some_aux(full buffer)"; rc = sts_some_aux(&s, &k, &aux); break;
+            case 3: api = "sts_atmost_aux(full buffer)"; rc = sts_atmost_aux(&s, &k, &aux, asz); break;
+            case 4: api = "sts_n_aux(full buffer)"; rc = sts_n_aux(&s, &k, &aux, 3); break;
+            default: api = "sts_drain_aux(full buffer)"; rc = sts_drain_aux(&s, &k, &aux); break;
+            }
+            char key[96];
+            snprintf(key, sizeof key, "api=%s source=%s sink=%s", api, srcchunk ? "chunk" : "octet", snkchunk ? "chunk" : "octet");
+            if (sd.runaway || kd.runaway) {
+                vh_fail("no-progress", key, "size %zu: driver call bound exceeded", asz);
+                continue;
+            }
+            if (sd.pos != 0 || kd.pos != 0 || memcmp(mem, img, asz) != 0 || rc > 0)
+                vh_fail("moved-although-nothing-could-be", key, "size %zu: rc=%zd, source gave %zu octets, sink got %zu, memory %s (was %s)", asz, rc,
+                        sd.pos, kd.pos, vh_hex(mem, asz), vh_hex(img, asz));
+            if (what >= 2 && (aux.used != asz || aux.offset != 0 || aux.size != asz || aux.data != mem))
+                vh_fail("aux-marks", key, "size %zu: aux buffer now offset=%zu used=%zu size=%zu", asz, aux.offset, aux.used, aux.size);
+            VH_COUNT("nothing to move: at-most zero / auxiliary buffer without free space");
+            (*vh_ncases)++;
+        }
+    vh_sig(0x17a00000ull ^ idx);
+}
+
 /* ---- plumbing ---- */
 enum { F_CBC, F_N_CBC, F_DRAIN_CBC, F_N, F_DRAIN, F_SOME_AUX, F_ATMOST_AUX, F_N_AUX, F_DRAIN_AUX, NFUN };
 static const char *fname[] = { "sts_cbc", "sts_n_cbc", "sts_drain_cbc", "sts_n", "sts_drain",
@@ -1459,6 +1511,9 @@ harness_run(void)
                 vh_unit("exact", (p << 5) | (slen << 1) | (uint64_t)chunk, u_exact, NULL);
         }
     vh_unit("invalid", 0, u_invalid, NULL);
+    for (uint64_t i = 0; i < 4; i++)
+        vh_unit("nothing", i, u_nothing, NULL);
+    vh_require("nothing to move: at-most zero / auxiliary buffer without free space");
     for (uint64_t i = 0; i < NFUN * 8; i++)
         vh_unit("plumb", i, u_plumb, NULL);
     for (uint64_t i = 0; i < (vh_tier ? 6000u : 40u); i++)
